@@ -105,6 +105,13 @@ class Ctx:
     def check(self, cond, rule, where, node, ok_reason, bad_reason, **kw):
         return self.add(rule, where, node, "ok" if cond else "violation", ok_reason if cond else bad_reason, **kw)
 
+    def anchor(self, cond, rule, where, node, ok_reason, what, **kw):
+        """A construct must have the form confirmed by hand. When it has not, the analyser does not know whether the new form
+        still implements the behaviour (a refactoring would look the same): verdict `unknown` (exit 2), never a violation."""
+        if cond:
+            return self.add(rule, where, node, "ok", ok_reason, **kw)
+        return self.add(rule, where, node, "unknown", f"construct no longer has its confirmed form ({what}): cannot decide statically whether the behaviour is kept", **kw)
+
     def analysed(self, f: Func):
         self.functions_analysed.add(f.key)
 
